@@ -143,6 +143,16 @@ Fixpoint closer (h : trace) (g : nat) : option gstate :=
   | e :: r => match closer r g with Some st => Some st | None => is_close g e end
   end.
 
+(** the time of the call that closed generation [g] (of the OLDEST closing event, like [closer]) *)
+Definition close_at (g : nat) (e : event) : option N :=
+  match is_close g e with Some _ => Some (e_t e) | None => None end.
+
+Fixpoint close_time (h : trace) (g : nat) : option N :=
+  match h with
+  | [] => None
+  | e :: r => match close_time r g with Some t => Some t | None => close_at g e end
+  end.
+
 (** * The controllers follow the history *)
 
 Definition ctl_at (h : trace) (pc : nat) : ctl := mkCtl (state_at h pc) (chan_at h pc) (in_force h pc).
@@ -152,7 +162,8 @@ Record CtlInv (h : trace) (s : gst) : Prop := {
   ci_ctl : forall pc, ctl_of s pc = ctl_at h pc;
   ci_closed : forall g, nget (g_closed s) g = closer h g;
   ci_chan : forall pc g, c_state (ctl_of s pc) <> GPaused -> c_chan (ctl_of s pc) = Some g ->
-                         nget (g_closed s) g <> None
+                         nget (g_closed s) g <> None;
+  ci_ctime : forall g, nget (g_ctime s) g = close_time h g
 }.
 
 Lemma ctl_of_set_ctl s pc c pc' :
@@ -179,16 +190,29 @@ Proof.
   intros H. unfold is_close. destruct (e_k e) eqn:Hk; try reflexivity. exfalso. eapply H. reflexivity.
 Qed.
 
+Lemma close_time_other h e g : is_close g e = None -> close_time (e :: h) g = close_time h g.
+Proof. intros H. cbn [close_time]. unfold close_at. rewrite H. now destruct (close_time h g). Qed.
+
+(** [closer] and [close_time] are defined together *)
+Lemma close_time_closer h g : close_time h g = None <-> closer h g = None.
+Proof.
+  induction h as [|e h IH]; cbn [close_time closer]; [tauto|].
+  destruct (close_time h g) as [t|], (closer h g) as [st|]; try (split; discriminate).
+  - destruct IH as [_ IH]. now specialize (IH eq_refl).
+  - destruct IH as [IH _]. now specialize (IH eq_refl).
+  - unfold close_at. destruct (is_close g e); split; try discriminate; reflexivity.
+Qed.
+
 (** states that differ only in fields the controllers do not read *)
 Definition same_ctl (s s' : gst) : Prop :=
-  g_cmds s' = g_cmds s /\ g_ctl s' = g_ctl s /\ g_closed s' = g_closed s.
+  g_cmds s' = g_cmds s /\ g_ctl s' = g_ctl s /\ g_closed s' = g_closed s /\ g_ctime s' = g_ctime s.
 
 Lemma CtlInv_same h e s s' :
   CtlInv h s -> same_ctl s s' ->
   (forall pc st ch, e_k e <> KGateSet pc st ch) -> (forall c a b fa, e_k e <> KParams c a b fa) ->
   CtlInv (e :: h) s'.
 Proof.
-  intros [H1 H2 H3 H4] (E1 & E2 & E3) Hs Hp.
+  intros [H1 H2 H3 H4 H5] (E1 & E2 & E3 & E4) Hs Hp.
   assert (Hctl : forall pc, ctl_of s' pc = ctl_of s pc) by (intros pc; unfold ctl_of; now rewrite E2).
   split.
   - intros c. rewrite E1, H1. cbn [fail_of]. destruct (e_k e) eqn:Hk; try reflexivity.
@@ -196,6 +220,7 @@ Proof.
   - intros pc. rewrite Hctl, H2. symmetry. apply ctl_at_other. intros st ch Hk. eapply Hs. exact Hk.
   - intros g. rewrite E3, H3. symmetry. apply closer_other. now apply is_close_not_set.
   - intros pc g. rewrite Hctl, E3. apply H4.
+  - intros g. rewrite E4, H5. symmetry. apply close_time_other. now apply is_close_not_set.
 Qed.
 
 Lemma same_ctl_refl s : same_ctl s s.
@@ -212,7 +237,7 @@ Proof.
 Qed.
 
 Lemma same_ctl_trans a b c : same_ctl a b -> same_ctl b c -> same_ctl a c.
-Proof. intros (A1 & A2 & A3) (B1 & B2 & B3). repeat split; congruence. Qed.
+Proof. intros (A1 & A2 & A3 & A4) (B1 & B2 & B3 & B4). repeat split; congruence. Qed.
 
 (** the steps that do not touch the controllers *)
 Lemma gstep_same_ctl s e s' :
@@ -308,7 +333,7 @@ Proof.
     try (eapply CtlInv_same; [exact Hinv|eapply gstep_same_ctl; [exact Hstep|..]|..];
          intros; rewrite Hk; discriminate).
   - (* KParams *)
-    destruct Hinv as [H1 H2 H3 H4]. unfold gstep in Hstep. rewrite Hk in Hstep. unfold step_params in Hstep.
+    destruct Hinv as [H1 H2 H3 H4 H5]. unfold gstep in Hstep. rewrite Hk in Hstep. unfold step_params in Hstep.
     injection Hstep as <-. split.
     + intros c0. cbn [g_cmds fail_of]. rewrite Hk, nget_nset. destruct (Nat.eqb c0 c); [reflexivity|apply H1].
     + intros pc. unfold ctl_of. cbn [g_ctl]. fold (ctl_of s pc). rewrite H2. symmetry. apply ctl_at_other.
@@ -316,8 +341,10 @@ Proof.
     + intros g. cbn [g_closed]. rewrite H3. symmetry. apply closer_other. apply is_close_not_set.
       intros pc st ch. rewrite Hk. discriminate.
     + intros pc g. unfold ctl_of. cbn [g_ctl g_closed]. apply H4.
+    + intros g. cbn [g_ctime]. rewrite H5. symmetry. apply close_time_other. apply is_close_not_set.
+      intros pc st ch. rewrite Hk. discriminate.
   - (* KGateSet *)
-    destruct Hinv as [H1 H2 H3 H4]. unfold gstep in Hstep. rewrite Hk in Hstep. unfold step_set in Hstep.
+    destruct Hinv as [H1 H2 H3 H4 H5]. unfold gstep in Hstep. rewrite Hk in Hstep. unfold step_set in Hstep.
     assert (Hfail : forall c, fail_of (e :: h) c = fail_of h c).
     { intros c. apply fail_of_not_params. intros. rewrite Hk. discriminate. }
     assert (Hoth : forall pc0, pc0 <> pc -> ctl_at (e :: h) pc0 = ctl_at h pc0).
@@ -342,6 +369,11 @@ Proof.
         -- intros pc0 g. rewrite ctl_of_set_ctl. cbn [set_ctl g_closed]. destruct (Nat.eqb pc0 pc) eqn:E.
            ++ cbn [c_state c_chan]. intros _ Hc. apply (H4 pc g); [rewrite Est; discriminate|congruence].
            ++ apply H4.
+        -- intros g. cbn [set_ctl g_ctime]. rewrite H5. symmetry.
+           cbn [close_time]. destruct (close_time h g) eqn:Ec; [reflexivity|].
+           unfold close_at, is_close. rewrite Hk. destruct chan as [g'|]; [|reflexivity].
+           destruct (Nat.eqb g g') eqn:E; [|reflexivity]. apply Nat.eqb_eq in E. subst g'.
+           exfalso. eapply (H4 pc g); [rewrite Est; discriminate|congruence|]. rewrite H3. now apply close_time_closer.
       * destruct (c_chan (ctl_of s pc)) as [g0|] eqn:Ecc; [|discriminate].
         destruct (nget (g_closed s) g0) eqn:Ecl; [discriminate|]. injection Hstep as <-. subst chan. split.
         -- intros c. cbn [g_cmds]. now rewrite Hfail.
@@ -358,6 +390,11 @@ Proof.
            destruct (Nat.eqb pc0 pc) eqn:E.
            ++ cbn [c_chan]. intros _ Hc. injection Hc as <-. now rewrite Nat.eqb_refl in Eg.
            ++ apply H4.
+        -- assert (Ect : nget (g_ctime s) g0 = None) by (rewrite H5; apply close_time_closer; now rewrite <- H3).
+           intros g. cbn [g_ctime nget close_time]. rewrite <- H5. unfold close_at, is_close. rewrite Hk.
+           rewrite (Nat.eqb_sym g g0). destruct (Nat.eqb g0 g) eqn:E.
+           ++ apply Nat.eqb_eq in E. subst g. now rewrite Ect.
+           ++ now destruct (nget (g_ctime s) g).
       * injection Hstep as <-. split.
         -- intros c. cbn [set_ctl g_cmds]. now rewrite Hfail.
         -- intros pc0. rewrite ctl_of_set_ctl. destruct (Nat.eqb pc0 pc) eqn:E.
@@ -372,6 +409,11 @@ Proof.
         -- intros pc0 g. rewrite ctl_of_set_ctl. cbn [set_ctl g_closed]. destruct (Nat.eqb pc0 pc) eqn:E.
            ++ cbn [c_state c_chan]. intros _ Hc. apply (H4 pc g); [rewrite Est; discriminate|congruence].
            ++ apply H4.
+        -- intros g. cbn [set_ctl g_ctime]. rewrite H5. symmetry.
+           cbn [close_time]. destruct (close_time h g) eqn:Ec; [reflexivity|].
+           unfold close_at, is_close. rewrite Hk. destruct chan as [g'|]; [|reflexivity].
+           destruct (Nat.eqb g g') eqn:E; [|reflexivity]. apply Nat.eqb_eq in E. subst g'.
+           exfalso. eapply (H4 pc g); [rewrite Est; discriminate|congruence|]. rewrite H3. now apply close_time_closer.
     + (* Pause *)
       unfold step_pause in Hstep. destruct (e_by e) as [|k| |] eqn:Eby; try discriminate.
       destruct (nget (g_cmds s) k) as [fa|] eqn:Ecmd; [|discriminate].
@@ -380,16 +422,17 @@ Proof.
       { intros ch Hk'. rewrite (ctl_at_set _ _ _ _ _ Hk'), Eby, Hfa. reflexivity. }
       assert (Hcl : forall g, closer (e :: h) g = closer h g).
       { intros g. apply closer_other. eapply is_close_paused. exact Hk. }
-      assert (Hgoal : forall s1, g_cmds s1 = g_cmds s -> g_closed s1 = g_closed s ->
+      assert (Hgoal : forall s1, g_cmds s1 = g_cmds s -> g_closed s1 = g_closed s -> g_ctime s1 = g_ctime s ->
                 (forall pc0, ctl_of s1 pc0 = if Nat.eqb pc0 pc then mkCtl GPaused chan fa else ctl_of s pc0) ->
                 CtlInv (e :: h) s1).
-      { intros s1 E1 E3 E2. split.
+      { intros s1 E1 E3 E5 E2. split.
         - intros c. now rewrite E1, Hfail.
         - intros pc0. rewrite E2. destruct (Nat.eqb pc0 pc) eqn:E.
           + apply Nat.eqb_eq in E. subst pc0. symmetry. now apply Hnew.
           + apply Nat.eqb_neq in E. rewrite Hoth by exact E. apply H2.
         - intros g. now rewrite E3, Hcl.
-        - intros pc0 g. rewrite E2, E3. destruct (Nat.eqb pc0 pc); [cbn; congruence|apply H4]. }
+        - intros pc0 g. rewrite E2, E3. destruct (Nat.eqb pc0 pc); [cbn; congruence|apply H4].
+        - intros g. rewrite E5, H5. symmetry. apply close_time_other. eapply is_close_paused. exact Hk. }
       destruct (c_state (ctl_of s pc)) eqn:Est, (c_chan (ctl_of s pc)) as [g0|] eqn:Ecc;
         try (destruct chan as [g|]; [|discriminate]; destruct (nmem g (g_opened s)); [discriminate|];
              injection Hstep as <-; apply Hgoal; try reflexivity;
@@ -415,6 +458,11 @@ Proof.
         -- intros pc0 g. rewrite ctl_of_set_ctl. cbn [set_ctl g_closed]. destruct (Nat.eqb pc0 pc) eqn:E.
            ++ cbn [c_state c_chan]. intros _ Hc. apply (H4 pc g); [rewrite Est; discriminate|congruence].
            ++ apply H4.
+        -- intros g. cbn [set_ctl g_ctime]. rewrite H5. symmetry.
+           cbn [close_time]. destruct (close_time h g) eqn:Ec; [reflexivity|].
+           unfold close_at, is_close. rewrite Hk. destruct chan as [g'|]; [|reflexivity].
+           destruct (Nat.eqb g g') eqn:E; [|reflexivity]. apply Nat.eqb_eq in E. subst g'.
+           exfalso. eapply (H4 pc g); [rewrite Est; discriminate|congruence|]. rewrite H3. now apply close_time_closer.
       * destruct (c_chan (ctl_of s pc)) as [g0|] eqn:Ecc; [|discriminate].
         destruct (nget (g_closed s) g0) eqn:Ecl; [discriminate|]. injection Hstep as <-. subst chan. split.
         -- intros c. cbn [g_cmds]. now rewrite Hfail.
@@ -431,6 +479,11 @@ Proof.
            destruct (Nat.eqb pc0 pc) eqn:E.
            ++ cbn [c_chan]. intros _ Hc. injection Hc as <-. now rewrite Nat.eqb_refl in Eg.
            ++ apply H4.
+        -- assert (Ect : nget (g_ctime s) g0 = None) by (rewrite H5; apply close_time_closer; now rewrite <- H3).
+           intros g. cbn [g_ctime nget close_time]. rewrite <- H5. unfold close_at, is_close. rewrite Hk.
+           rewrite (Nat.eqb_sym g g0). destruct (Nat.eqb g0 g) eqn:E.
+           ++ apply Nat.eqb_eq in E. subst g. now rewrite Ect.
+           ++ now destruct (nget (g_ctime s) g).
       * injection Hstep as <-. split.
         -- intros c. cbn [set_ctl g_cmds]. now rewrite Hfail.
         -- intros pc0. rewrite ctl_of_set_ctl. destruct (Nat.eqb pc0 pc) eqn:E.
@@ -445,6 +498,11 @@ Proof.
         -- intros pc0 g. rewrite ctl_of_set_ctl. cbn [set_ctl g_closed]. destruct (Nat.eqb pc0 pc) eqn:E.
            ++ cbn [c_state c_chan]. intros _ Hc. apply (H4 pc g); [rewrite Est; discriminate|congruence].
            ++ apply H4.
+        -- intros g. cbn [set_ctl g_ctime]. rewrite H5. symmetry.
+           cbn [close_time]. destruct (close_time h g) eqn:Ec; [reflexivity|].
+           unfold close_at, is_close. rewrite Hk. destruct chan as [g'|]; [|reflexivity].
+           destruct (Nat.eqb g g') eqn:E; [|reflexivity]. apply Nat.eqb_eq in E. subst g'.
+           exfalso. eapply (H4 pc g); [rewrite Est; discriminate|congruence|]. rewrite H3. now apply close_time_closer.
 Qed.
 
 Lemma CtlInv_init : CtlInv [] ginit.
@@ -499,10 +557,15 @@ Definition hold_ok (h : hold) (p1 : trace) : Prop :=
 Definition wake_ok (h : hold) (w : wake) (hb : trace) : Prop :=
   (w_chan w = true -> closer hb (h_gen h) <> None) /\
   (w_chan w = false -> w_t w = h_tread h + h_fail h) /\
-  w_st w = state_at hb (h_pc h).
+  w_st w = state_at hb (h_pc h) /\
+  (w_chan w = false -> forall tc, close_time hb (h_gen h) = Some tc -> w_t w <= tc).
 
-Definition status_ok (a : gaction) (status : N) : Prop :=
-  match a with AStopped => status = 503 | ATimedOut => status = 504 | AProceed => True end.
+(** the answer after a gate result: 503 after "stopped", 504 after "timed out", both naming no target *)
+Definition status_ok (a : gaction) (status : N) (sb : str) : Prop :=
+  match a with AStopped => status = 503 /\ sb = [] | ATimedOut => status = 504 /\ sb = [] | AProceed => True end.
+
+Lemma str_eqb_nil sb : str_eqb sb [] = true -> sb = [].
+Proof. destruct sb; [reflexivity|discriminate]. Qed.
 
 Definition Parked r (hist : trace) (h : hold) : Prop :=
   exists p2 p1, hist = p2 ++ ev_read r h :: p1 /\ quiet r p2 /\ quiet r p1 /\ hold_ok h p1.
@@ -516,7 +579,7 @@ Definition Done r (hist : trace) (h : hold) (w : wake) (a : gaction) : Prop :=
 
 Definition Answered r (hist : trace) (h : hold) (w : wake) (a : gaction) (status : N) : Prop :=
   exists p5 hb t who sb, hist = p5 ++ mkEv t who (KRespond r status sb) :: hb /\
-                         quiet r p5 /\ Done r hb h w a /\ status_ok a status.
+                         quiet r p5 /\ Done r hb h w a /\ status_ok a status sb.
 
 Definition ReqInv (r : nat) (hist : trace) (ph : option phase) : Prop :=
   match ph with
@@ -622,7 +685,7 @@ Proof.
       rewrite (gstep_req_other _ _ _ _ Hstep Hn). now apply ReqInv_cons_other. }
   assert (Hreq : req_of e = Some r).
   { destruct (req_of e) as [r0|]; [|discriminate]. cbn in Hr. injection Hr as Hr. apply Nat.eqb_eq in Hr. now subst. }
-  clear Hr. specialize (Hall r). destruct Hc as [H1 H2 H3 H4].
+  clear Hr. specialize (Hall r). destruct Hc as [H1 H2 H3 H4 H5].
   destruct e as [t who k]. unfold req_of in Hreq. unfold gstep in Hstep. cbn [e_k e_by e_t] in *.
   destruct k; try discriminate.
   - (* respond *)
@@ -631,7 +694,8 @@ Proof.
     + destruct (match a with AStopped => _ | ATimedOut => _ | AProceed => _ end) eqn:Est; [|discriminate].
       injection Hstep as <-. rewrite get_set_req. cbn [ReqInv]. exists a. split; [reflexivity|].
       destruct Hall as [HD _]. exists [], h, t, who, served_by. split; [reflexivity|]. split; [constructor|].
-      split; [exact HD|]. unfold status_ok. destruct a; auto; now apply N.eqb_eq in Est.
+      split; [exact HD|]. unfold status_ok. destruct a; auto; apply andb_true_iff in Est as [Est Esb];
+        apply N.eqb_eq in Est; apply str_eqb_nil in Esb; auto.
     + destruct (match a with AStopped => _ | ATimedOut => _ | AProceed => _ end); [|discriminate].
       injection Hstep as <-. rewrite get_set_req. cbn [ReqInv]. constructor; [|exact Hall].
       intros (pc' & ch & Hk & _). discriminate.
@@ -667,10 +731,11 @@ Proof.
     apply andb_true_iff in Echk as [Epc Ew]. apply Nat.eqb_eq in Epc. subst pc.
     injection Hstep as <-. rewrite get_set_req. cbn [ReqInv].
     exists [], h. split; [reflexivity|]. split; [constructor|]. split; [exact Hall|].
-    unfold wake_ok. cbn [w_chan w_t w_st]. split; [|split].
+    unfold wake_ok. cbn [w_chan w_t w_st]. split; [|split; [|split]].
     + intros ->. rewrite <- H3. destruct (nget (g_closed s) (h_gen hd)); [discriminate|discriminate].
-    + intros ->. now apply N.eqb_eq in Ew.
+    + intros ->. apply andb_true_iff in Ew as [Ew _]. now apply N.eqb_eq in Ew.
     + now rewrite H2.
+    + intros -> tc Htc. apply andb_true_iff in Ew as [_ Ew]. rewrite H5, Htc in Ew. now apply N.leb_le in Ew.
   - (* result *)
     injection Hreq as ->. unfold step_result in Hstep.
     destruct who as [r0| | |]; try discriminate.
@@ -755,7 +820,7 @@ Definition held_story (tr : trace) (r : nat) (h : hold) (w : wake) (a : gaction)
          mkEv t3 (AReq r) (KGateResult r svc a) :: mid ++ mkEv t5 who (KRespond r status sb) :: rest /\
     quiet r pre /\ quiet r held /\ quiet r aw /\ pathonly r mid /\ (a = AProceed \/ quiet r mid) /\ quiet r rest /\
     hold_ok h (rev pre) /\ wake_ok h w (rev (pre ++ ev_read r h :: held)) /\
-    a = action_of w /\ status_ok a status.
+    a = action_of w /\ status_ok a status sb.
 
 Lemma Answered_story r hist h w a status :
   Answered r hist h w a status -> held_story (rev hist) r h w a status.
@@ -862,7 +927,7 @@ Theorem repeated_pause pre e post s pc ch :
   (forall c, e_by e = ACmd c -> in_force (e :: rev pre) pc = match fail_of (rev pre) c with Some fa => fa | None => 0 end).
 Proof.
   intros Hrun Hk Hst. apply run_split in Hrun as (s1 & s2 & Hpre & Hstep & _).
-  destruct (GInv_run _ _ Hpre) as [[H1 H2 H3 H4] _]. pose proof (PausedChan_run _ _ Hpre) as HP.
+  destruct (GInv_run _ _ Hpre) as [[H1 H2 H3 H4 H5] _]. pose proof (PausedChan_run _ _ Hpre) as HP.
   assert (Est : c_state (ctl_of s1 pc) = GPaused) by (now rewrite H2).
   assert (Ech : c_chan (ctl_of s1 pc) = chan_at (rev pre) pc) by (now rewrite H2).
   specialize (HP pc Est).
@@ -1070,7 +1135,7 @@ Proof.
     injection Hstep as <-.
     assert (Hnp : nget (g_parent s) new = None).
     { destruct (nget (g_parent s) new) eqn:E; [|reflexivity]. apply (li_parent _ _ HL) in E. tauto. }
-    assert (Hroot : forall x, x <> new -> root (mkG (g_cmds s) (g_ctl s) (g_opened s) (g_closed s) (g_req s)
+    assert (Hroot : forall x, x <> new -> root (mkG (g_cmds s) (g_ctl s) (g_opened s) (g_closed s) (g_ctime s) (g_req s)
                                    (new :: old :: g_known s) (nset (g_parent s) new (root s old)) (g_pc s)) x = root s x).
     { intros x Hx. unfold root. cbn [g_parent]. now rewrite nget_nset_other. }
     assert (Hrold : In (root s old) (old :: g_known s)).
@@ -1174,10 +1239,11 @@ Theorem non_gate_event_inert s e s' :
   gstep s e = Some s' ->
   (forall pc st ch, e_k e <> KGateSet pc st ch) -> (forall c a b fa, e_k e <> KParams c a b fa) ->
   req_of e = None ->
-  g_ctl s' = g_ctl s /\ g_closed s' = g_closed s /\ forall r, nget (g_req s') r = nget (g_req s) r.
+  g_ctl s' = g_ctl s /\ g_closed s' = g_closed s /\ g_ctime s' = g_ctime s /\
+  forall r, nget (g_req s') r = nget (g_req s) r.
 Proof.
-  intros Hstep Hs Hp Hr. destruct (gstep_same_ctl _ _ _ Hstep Hs Hp) as (_ & E2 & E3).
-  split; [exact E2|]. split; [exact E3|]. intros r. eapply gstep_req_other; [exact Hstep|].
+  intros Hstep Hs Hp Hr. destruct (gstep_same_ctl _ _ _ Hstep Hs Hp) as (_ & E2 & E3 & E4).
+  split; [exact E2|]. split; [exact E3|]. split; [exact E4|]. intros r. eapply gstep_req_other; [exact Hstep|].
   unfold concerns. rewrite Hr. discriminate.
 Qed.
 
@@ -1271,14 +1337,18 @@ Theorem parked_story_flat tr r e :
     a = (if w_chan w
          then match state_at (rev (pre ++ ev_read r h :: held)) (h_pc h) with GStopped => AStopped | _ => AProceed end
          else ATimedOut) /\
-    (a = AStopped -> status = 503) /\ (a = ATimedOut -> status = 504).
+    (a = AStopped -> status = 503) /\ (a = ATimedOut -> status = 504) /\
+    (w_chan w = false -> forall tc, close_time (rev (pre ++ ev_read r h :: held)) (h_gen h) = Some tc -> w_t w <= tc) /\
+    (a <> AProceed -> sb = []).
 Proof.
   intros Hacc Hin Hp.
   destruct (parked_story tr r e Hacc Hin Hp) as (h & w & a & status & pre & held & aw & mid & rest & t3 & svc & t5 & who & sb &
-    Htr & Q1 & Q2 & Q3 & P4 & Hq & Q5 & (S1 & S2 & S3) & (W1 & W2 & W3) & Ha & Hs).
+    Htr & Q1 & Q2 & Q3 & P4 & Hq & Q5 & (S1 & S2 & S3) & (W1 & W2 & W3 & W4) & Ha & Hs).
   exists pre, held, aw, mid, rest, h, w, a, status, t3, svc, t5, who, sb.
-  repeat (split; [assumption|]). split; [|split; intros ->; exact Hs].
-  rewrite Ha. unfold action_of. now rewrite W3.
+  repeat (split; [assumption|]).
+  split; [rewrite Ha; unfold action_of; now rewrite W3|].
+  split; [intros E; rewrite E in Hs; apply Hs|]. split; [intros E; rewrite E in Hs; apply Hs|].
+  split; [exact W4|]. unfold status_ok in Hs. destruct a; [intros E; now elim E| |]; intros _; apply Hs.
 Qed.
 
 Theorem outcome_cases (w : wake) (hb : trace) (pc g : nat) (a : gaction) :
